@@ -1,10 +1,17 @@
 import GoMailModel.Mime.Exec
 import GoMailModel.Proofs.Wrap
+import GoMailModel.Proofs.QP
+import GoMailModel.Proofs.B64RT
+import GoMailModel.Proofs.Tree
 import GoMailModel.Generated.Nesting
 /-
   C01 — Rendered MIME carries exactly the content the caller supplied.
-  (First group of theorems: the nesting decisions as regenerated from msg.go, and the transfer
-   encodings. The multipart inverse theorem is stated in `C01_statement` and still open.)
+  Theorems: the nesting decisions as regenerated from msg.go; the transfer encodings and their
+  inverses (quoted-printable and base64 decoders written from the RFCs give the content back, for
+  every content); the refinement of the imperative multipart writer to the RFC 2046 serialisation of
+  the message TREE (`render_is_tree`). What is not proved: that an RFC 2046 *reader* inverts that
+  serialisation (it does whenever no delimiter line occurs inside a leaf; the boundaries are random) -
+  this last step is carried by the correspondence run with the harness' own MIME reader.
 -/
 namespace GoMail.Props.C01
 open GoMail GoMail.Mime
@@ -61,8 +68,71 @@ theorem b64_body_is_encoding (content : Bytes) :
       rw [← h2]; exact List.mem_flatten.mpr ⟨l, hl, hc⟩
     exact alpha_not_dash c this
 
+/-- LF -> CRLF canonicalisation of text that has no CR of its own -/
+def lfToCRLF (xs : Bytes) : Bytes := (xs.map (fun b => if b == 10 then [13, 10] else [b])).flatten
+
+/-- quoted-printable bodies (and the bodies of parts with an unknown encoding label, which take
+    the same writer): an RFC 2045 decoder gives back the content with its line breaks made CRLF,
+    for EVERY content. `QP.canon` is the writer's reading of its input: CR, LF and CRLF are each
+    one line break. -/
+theorem qp_body_roundtrip (content : Bytes) :
+    QP.decode (Body.encodeBody .qp content) = QP.canon false content ∧
+    QP.decode (Body.encodeBody .other content) = QP.canon false content :=
+  ⟨QP.roundtrip content, QP.roundtrip content⟩
+
+/-- ... and for content without CR this is exactly the LF -> CRLF canonicalisation of the property. -/
+theorem qp_canon_lf (content : Bytes) (h : ∀ b ∈ content, b ≠ 13) :
+    QP.canon false content = lfToCRLF content := by
+  induction content with
+  | nil => rfl
+  | cons b r ih =>
+    have hb : b ≠ 13 := h b (by simp)
+    have hr := ih (fun x hx => h x (by simp [hx]))
+    have hb' : (b == 13) = false := by simp [hb]
+    unfold QP.canon lfToCRLF
+    simp only [List.map_cons, List.flatten_cons]
+    by_cases h10 : b = 10
+    · subst h10
+      have : QP.emit false 10 = ([13, 10], false) := by decide
+      rw [this]; simp only []; rw [hr]; rfl
+    · have h10' : (b == 10) = false := by simp [h10]
+      have : QP.emit false b = ([b], false) := by
+        unfold QP.emit; simp [h10', hb']
+      rw [this]; simp only [h10']; rw [hr]; rfl
+
+/-- ... and an RFC 4648 decoder applied to the joined lines gives the content back, for EVERY content. -/
+theorem b64_body_roundtrip (content : Bytes) :
+    ∃ ls : List Bytes, Body.encodeBody .b64 content = (ls.map (· ++ crlf)).flatten ∧
+      Base64.decode ls.flatten = some content := by
+  obtain ⟨ls, h1, h2, _⟩ := b64_body_is_encoding content
+  exact ⟨ls, h1, by rw [h2]; exact Base64.decode_encode content⟩
+
+/-- **The rendered body is the serialisation of the message tree.** For every message without deleted
+    parts that needs a multipart layer (no S/MIME), every header state and every entropy: the bytes of
+    a complete render are the message header fields followed by `Ent.ser` of ONE entity, and that
+    entity is `contentTree`: multipart/mixed [ multipart/related [ multipart/alternative [body parts] ,
+    embeds ] , attachments ] with exactly the layers `hasMixed / hasRelated / hasAlt` ask for, the
+    leaves in the order parts, embeds, attachments, every multipart opened with the boundary it is
+    closed with. `Ent.ser` / `serList` (Proofs/Tree.lean) are RFC 2046 §5.1.1 in twelve lines. -/
+theorem render_is_tree (s : MsgState) (e : Entropy)
+    (hp : ∀ p ∈ s.parts, p.deleted = false ∧ p.smime = false)
+    (hl : hasMixed s = true ∨ hasRelated s = true ∨ hasAlt s = true) :
+    ∃ top, contentTree (defaultHeaders s e) (writeMsg s e false).2.bMixed (writeMsg s e false).2.bRelated (writeMsg s e false).2.bAlt
+        (writeMsg s e false).2.embeds (writeMsg s e false).2.attachments = [top] ∧
+      planBytes (writeMsg s e false).1.acts = (stageHeaders (defaultHeaders s e) {}).out ++ top.ser :=
+  writeMsg_refines s e hp hl
+
+/-- ... and whatever layers are present, the leaves of that tree are, in order: one per body part, one
+    per embed, one per attachment. -/
+theorem tree_leaves (s : MsgState) (bM bR bA : Bytes) (embeds attachments : List FileM) :
+    leavesL (contentTree s bM bR bA embeds attachments) =
+      (s.parts.filter (fun x => !x.deleted && !x.smime)).map (leafOfPart s) ++ embeds.map leafOfFile ++ attachments.map leafOfFile :=
+  contentTree_leaves s bM bR bA embeds attachments
+
 /-- 8bit / 7bit bodies are the content itself -/
 theorem raw_body_is_content (content : Bytes) : Body.encodeBody .raw content = content := rfl
+
+example : QP.decode (QP.encodeBytes (sb "a=b \n\tü ")) = sb "a=b \r\n\tü " := by decide
 
 example : (Generated.hasMixed 0 1 1 0 1 true = true) ∧ (Generated.hasAlt 0 1 1 0 1 true = false) := by decide
 
